@@ -308,10 +308,25 @@ def run(repo: Repo, chk: Check, thorough: bool = False) -> None:
     prm = ua.params()[0].arg
     PRESENTATION = ('isVisible', 'privacyClass', 'isPrivate', 'PrivacyClass', 'docstring', 'kind')
     found = 0
+
+    def _is_tail(e: ast.AST, depth: int = 2) -> bool:
+        """e is `<baselist>[k:]`, directly or through a local bound to it (`first, nearer = baselist[0], baselist[1:]`)."""
+        if isinstance(e, ast.Subscript) and isinstance(e.value, ast.Name) and e.value.id == prm and isinstance(e.slice, ast.Slice):
+            return True
+        if isinstance(e, ast.Name) and depth > 0:
+            for a in ua.walk():
+                if isinstance(a, ast.Assign):
+                    for t in a.targets:
+                        if isinstance(t, ast.Name) and t.id == e.id and _is_tail(a.value, depth - 1):
+                            return True
+                        if isinstance(t, ast.Tuple) and isinstance(a.value, ast.Tuple) and len(t.elts) == len(a.value.elts):
+                            for te, ve in zip(t.elts, a.value.elts):
+                                if isinstance(te, ast.Name) and te.id == e.id and _is_tail(ve, depth - 1):
+                                    return True
+        return False
     for n in ua.walk():
         gens = n.generators if isinstance(n, (ast.SetComp, ast.ListComp, ast.GeneratorExp, ast.DictComp)) else []
-        if gens and isinstance(gens[0].iter, ast.Subscript) and isinstance(gens[0].iter.value, ast.Name) and gens[0].iter.value.id == prm and \
-                isinstance(gens[0].iter.slice, ast.Slice):
+        if gens and _is_tail(gens[0].iter):
             found += 1
             conds = [c for g in gens for c in g.ifs]
             bad = [c for c in conds if any(isinstance(x, ast.Attribute) and x.attr in PRESENTATION for x in ast.walk(c))]
@@ -319,7 +334,7 @@ def run(repo: Repo, chk: Check, thorough: bool = False) -> None:
                    f'the masking names are collected from all of {prm}[1:] without a presentation filter' if not bad else
                    f'masking names are filtered by `{norm(bad[0])}`: a hidden/private override no longer masks, so the page attributes the member to a '
                    'farther base than Python\'s lookup does', repo.loc(ua.mod, n))
-        if isinstance(n, ast.For) and isinstance(n.iter, ast.Subscript) and isinstance(n.iter.value, ast.Name) and n.iter.value.id == prm and isinstance(n.iter.slice, ast.Slice):
+        if isinstance(n, ast.For) and _is_tail(n.iter):
             found += 1
             bad2 = [x for x in ast.walk(n) if isinstance(x, (ast.If, ast.IfExp)) and any(isinstance(y, ast.Attribute) and y.attr in PRESENTATION for y in ast.walk(x.test))]
             chk.ob('R05.5', 'templatewriter.util.unmasked_attrs :: every member of the nearer classes masks, shown or not', not bad2,
